@@ -717,6 +717,12 @@ func (s *Service) UpdateHandlerSpec(oldSpec, newSpec HandlerSpec) error {
 
 	oldH := s.handlers[topic][oldSpec.ID]
 
+	if newSpec.ID != oldSpec.ID {
+		if _, ok := s.handlers[topic][newSpec.ID]; ok {
+			return fmt.Errorf("cannot update handler, handler with ID %q already exists", newSpec.ID)
+		}
+	}
+
 	// Persist new handler specs
 	if newSpec.ID == oldSpec.ID {
 		if err := s.specsDAO.Replace(newSpec); err != nil {
